@@ -117,7 +117,7 @@ func main() {
 	or := hx.StartOracle(c.OraclePath)
 	defer or.Close()
 	r := &runner{c: c, or: or, maxTampers: 90}
-	budget := 55 * time.Second
+	budget := 42 * time.Second
 	if c.Thorough() {
 		r.maxTampers = 1 << 30
 		budget = 15 * time.Minute
